@@ -53,6 +53,11 @@ func nodeValues(thorough bool) []value {
 	gen.Full(full, "A", 2)
 	addBase("full", full, 2)
 	addBase("sparse", &sbom.Node{Id: "n1", Name: "sparse"}, 1)
+	sub := &sbom.Node{Id: "n2", Name: "subsecond"}
+	gen.SetField(sub.ProtoReflect(), sub.ProtoReflect().Descriptor().Fields().ByName("release_date"), 1, "S")
+	gen.SetField(sub.ProtoReflect(), sub.ProtoReflect().Descriptor().Fields().ByName("build_date"), 1, "S")
+	sub.ReleaseDate.Nanos, sub.BuildDate.Nanos = 700_000_000, 700_000_000
+	addBase("subsecond-dates", sub, 1)
 	if thorough {
 		full3 := &sbom.Node{}
 		gen.Full(full3, "B", 3)
